@@ -369,13 +369,19 @@ class World(object):
         if hole is not None and hole[0] > self.tickno and len(data) > hole[1]:
             d.note = "lost(size black hole)"
             return
-        if self.fates and (self.fate_filter is None or self.fate_filter(self, d)):
-            opts = [("deliver #%d" % d.id, 0)] + [("%s #%d" % (f, d.id), 1) for f in self.fates]
+        fates_here = [f for f in self.fates if f != "sendfail" or src != "s"]    # only the client's own socket can refuse (the Twisted transport never raises)
+        if fates_here and (self.fate_filter is None or self.fate_filter(self, d)):
+            opts = [("deliver #%d" % d.id, 0)] + [("%s #%d" % (f, d.id), 1) for f in fates_here]
             c = self.chooser.choose("fate", opts, key=((lambda: self.canon() + (d.data, d.dst if isinstance(d.dst, str) else "c")) if self.hash_states else None))
             if c:
                 self.fault_free = False
-                f = self.fates[c - 1]
+                f = fates_here[c - 1]
                 d.note = f
+                if f == "sendfail":
+                    # the operating system refuses this one send (socket buffer full): sendto raises inside UdpClient.update()
+                    d.note = "lost(send refused by the socket)"
+                    import errno
+                    raise BlockingIOError(errno.EAGAIN, "Resource temporarily unavailable (injected by the harness)")
                 if f == "drop":
                     return
                 if f == "dup":
@@ -438,6 +444,10 @@ class World(object):
                 continue
             try:
                 ce.client.update()
+            except BlockingIOError as e:
+                if "injected by the harness" not in str(e):
+                    raise
+                ce.update_errors.append((self.tickno, repr(e)))      # the application sees the error of its own socket; nothing else
             except Exception as e:
                 ce.update_errors.append((self.tickno, repr(e)))
                 self.exceptions.append(("client.update", repr(e)))
